@@ -141,7 +141,7 @@ func checkC15(c *Ctx) {
 	resOK := true
 	ir.EachInstr(b.fn, func(_ *ssa.BasicBlock, _ int, in ssa.Instruction) {
 		r, ok := in.(*ssa.Return)
-		if !ok || len(r.Results) != 1 {
+		if !ok || len(ir.Results(r)) != 1 {
 			return
 		}
 		var visit func(v ssa.Value, d int) bool
@@ -164,7 +164,7 @@ func checkC15(c *Ctx) {
 			}
 			return false
 		}
-		if !visit(r.Results[0], 0) {
+		if !visit(ir.Results(r)[0], 0) {
 			resOK = false
 		}
 	})
